@@ -2,7 +2,7 @@
 import vlib
 
 MODULES = {
-    "C15": "combo", "C16": "leaf", "C06": "combo", "C05": "combo", "C19": "leaf", "C02": "proto", "C09": "proto", "C10": "proto", "C14": "combo", "C03": "proto", "C04": "proto", "C07": "proto", "C12": "proto", "C17": "proto", "C11": "proto", "C13": "proto", "C18": "proto", "C01": "framing", "C08": "combo", "C20": "app",
+    "C15": "combo", "C16": "leaf", "C06": "combo", "C05": "combo", "C19": "leaf", "C02": "proto", "C09": "proto", "C10": "proto", "C14": "combo", "C03": "proto", "C04": "proto", "C07": "proto", "C12": "proto", "C17": "proto", "C11": "proto", "C13": "proto", "C18": "proto", "C01": "combo", "C08": "combo", "C20": "app",
 }
 
 
